@@ -4,7 +4,7 @@
 From Coq Require Import List ZArith Bool.
 From WebpGen Require Tables Consts.
 From Webp Require Import Vp8.Vp8Bool Vp8.Vp8Tables Vp8.Vp8Syntax Vp8.Vp8Kernels Vp8.Vp8KernelProofs Vp8.Vp8Upsample
-  Vp8.Vp8BoolAbs Vp8.Vp8BoolEnc Vp8.Vp8SyntaxRT.
+  Vp8.Vp8BoolAbs Vp8.Vp8BoolEnc Vp8.Vp8SyntaxRT Vp8.Vp8TokenRT.
 Import ListNotations.
 Open Scope Z_scope.
 
@@ -56,6 +56,35 @@ Theorem C04_syntax_roundtrip_bytes_partial : forall abs_default upd_seg upd_lf c
   = (cs, ct, sg, lf, lp, q).
 Proof. exact syntax_roundtrip_fixed_bytes. Qed.
 Print Assumptions C04_syntax_roundtrip_bytes_partial.
+
+(** The whole first-partition header, probability updates (13.4) and skip probability included:
+    every field the parser returns is the emitted one. *)
+Theorem C04_syntax_roundtrip : forall abs_default upd_seg upd_lf refresh h d rest,
+  wf_frame_hdr abs_default upd_seg upd_lf h ->
+  sync d (e_part1_hdr upd_seg upd_lf refresh h ++ rest) ->
+  exists d', parse_part1_hdr abs_default (fh_w h) (fh_h h) (fh_xscale h) (fh_yscale h) d = (h, d') /\ sync d' rest.
+Proof. exact syntax_roundtrip. Qed.
+Print Assumptions C04_syntax_roundtrip.
+
+(** Coefficient tokens of one block (section 13): end-of-block, zero runs (no end-of-block
+    check after a zero), literal values, the six categories with extra bits, sign, for every
+    probability table, start position, context and level list with magnitudes up to 2114:
+    the token reader returns the levels and the end-of-block position; the dequantised
+    block is the one computed from them. *)
+Theorem C04_tokens_roundtrip : forall tp ls fuel n ctx noeob d acc rest,
+  wf_levels n noeob ls -> (length ls < fuel)%nat ->
+  sync d (e_tokens tp n ctx noeob ls ++ rest) ->
+  exists d', tokens fuel tp n ctx noeob d acc = (acc_of n ls acc, n + Z.of_nat (length ls), d') /\ sync d' rest.
+Proof. exact tokens_rt. Qed.
+Print Assumptions C04_tokens_roundtrip.
+
+Theorem C04_decode_block_roundtrip : forall tp first ctx dqdc dqac ls d rest,
+  wf_levels first false ls -> 0 <= first ->
+  sync d (e_tokens tp first ctx false ls ++ rest) ->
+  exists d', decode_block tp first ctx dqdc dqac d =
+               (dequant_block (acc_of first ls []) dqdc dqac, first + Z.of_nat (length ls), d') /\ sync d' rest.
+Proof. exact decode_block_rt. Qed.
+Print Assumptions C04_decode_block_roundtrip.
 
 (** ** Kernel refinements: the Go decoder's short-cuts against the full definitions *)
 
